@@ -20,6 +20,8 @@
 //   S:  <ret> x=<dim,b,d;...> p=<dim,fb,fd;...> q=<dim,fb,fd;...> v=<value of every arrow index so far>
 //       x = get_index_persistence_diagram() (sorted), p = get_persistence_diagram(0,true) (sorted, death "inf" for open),
 //       q = get_persistence_diagram(shortest,false), v = get_filtration_value_from_index(i) for i = first stored..current
+//   P:  (insertion-only sequences) one segment "bars=<dim,b,d|inf;...>": the barcode of the boundary matrix through
+//       Gudhi::persistence_matrix::Matrix (RU flavour with column pairings, the object of property C05)
 //   an exception inside an op gives the segment "EXC <what>" and ends the case.
 #include <gudhi/zigzag_persistence.h>
 #include <gudhi/filtered_zigzag_persistence.h>
@@ -47,6 +49,11 @@ struct FOpt : Gudhi::zigzag_persistence::Default_filtered_zigzag_options {
 using ZP = Gudhi::zigzag_persistence::Zigzag_persistence<ZOpt>;
 using FP = Gudhi::zigzag_persistence::Filtered_zigzag_persistence<FOpt>;
 using SP = Gudhi::zigzag_persistence::Filtered_zigzag_persistence_with_storage<FOpt>;
+
+struct POpt : Gudhi::persistence_matrix::Default_options<Gudhi::persistence_matrix::Column_types::C07_COL, true> {
+  static const bool has_column_pairings = true;
+};
+using PM = Gudhi::persistence_matrix::Matrix<POpt>;
 
 static std::string num(double x) {
   if (std::isinf(x)) return x > 0 ? "inf" : "-inf";
@@ -205,6 +212,25 @@ static std::string run_S(const std::vector<Op>& ops, int dimmax, double shortest
   return out;
 }
 
+static std::string run_P(const std::vector<Op>& ops) {
+  PM m;
+  std::map<long long, unsigned> pos_of;
+  unsigned n = 0;
+  for (const Op& o : ops) {
+    if (o.k != 'I') return "NOT-INSERTION-ONLY";
+    std::vector<unsigned> bd;
+    for (long long b : o.bd) bd.push_back(pos_of.at(b));
+    std::sort(bd.begin(), bd.end());
+    m.insert_boundary(bd, o.dim);
+    pos_of[o.key] = n++;
+  }
+  std::vector<std::string> bars;
+  for (const auto& b : m.get_current_barcode())
+    bars.push_back(std::to_string(b.dim) + "," + std::to_string((long)b.birth) + "," +
+                   (b.death == PM::template get_null_value<typename PM::Pos_index>() ? std::string("inf") : std::to_string((long)b.death)));
+  return "bars=" + join(bars, true);
+}
+
 int main() {
   vh::install();
   std::string line;
@@ -224,6 +250,7 @@ int main() {
       if (mode == 'Z') r = run_Z(ops);
       else if (mode == 'F') r = run_F(ops);
       else if (mode == 'S') r = run_S(ops, dimmax, shortest);
+      else if (mode == 'P') r = run_P(ops);
       else r = "BADMODE";
     } catch (const std::exception& e) {
       r = std::string("EXC-OUTER ") + e.what();
